@@ -119,6 +119,7 @@ type fnTrans struct {
 	paramLV map[string]*LVal
 	locals    []localBinding
 	privAlloc map[*ssa.Alloc]bool
+	atcallHit map[string]bool
 	retBlocks []string
 	retPos    []string
 	declared map[string]bool
@@ -878,9 +879,27 @@ func translateFunc(eng *Engine, fn *ssa.Function, ct *Contract) (t *fnTrans) {
 		vals: map[ssa.Value]Val{}, lvals: map[ssa.Value]*LVal{},
 		reach: map[*ssa.BasicBlock]string{}, edges: map[[2]int]string{}, outSt: map[*ssa.BasicBlock]*State{},
 		ordc: map[string]int{}, params: map[string]Val{}, paramLV: map[string]*LVal{}, declared: map[string]bool{},
-		freeVarVals: map[string]Val{}, cse: map[string]string{}}
+		freeVarVals: map[string]Val{}, cse: map[string]string{}, atcallHit: map[string]bool{}}
 	defer func() {
-		if r := recover(); r != nil {
+		// an atcall clause that matched no call in the function would silently check (or assume) nothing
+		if r := recover(); r == nil {
+			var missing []string
+			for k := range ct.AtCall {
+				if !t.atcallHit[k] {
+					missing = append(missing, k)
+				}
+			}
+			for k := range ct.AtCallAssume {
+				if !t.atcallHit[k] && len(ct.AtCallAssume[k]) > 0 {
+					missing = append(missing, k)
+				}
+			}
+			sort.Strings(missing)
+			for _, k := range missing {
+				t.errorf("atcall clause names %s, which this function does not call", k)
+			}
+			return
+		} else {
 			t.errorf("translator panic: %v", r)
 			if os.Getenv("GOVC_STACK") != "" {
 				debug.PrintStack()
